@@ -126,7 +126,14 @@ func (e *Exec) CompareState(st *AppState, phase, txKind string, step int) []core
 			case ModFee, ModPool, ModPos, ModDAO:
 				who = k
 			}
-			add(balanceProp(phase, txKind, k), "balance-vs-model", map[string]string{"who": who},
+			prop := balanceProp(phase, txKind, k)
+			attrs := map[string]string{"who": who}
+			if phase == "BeginBlock" && e.awardedNow[k] {
+				// this holder received an award in this BeginBlock: "exactly the sum of the queued amounts ... minted to that address"
+				prop = "C10"
+				attrs["award_recipient"] = "true"
+			}
+			add(prop, "balance-vs-model", attrs,
 				"balance of %s (%s) is %s, reference model says %s (diff %s)", k, ah, got, m.Bal[k], new(big.Int).Sub(got, m.Bal[k]))
 			m.Bal[k] = new(big.Int).Set(got)
 		}
